@@ -49,7 +49,9 @@ def _sites(case, rng, k):
     ms = [dict(proc="match", obj=0, rule=m["rule"], mfile=m["file"], mline=m["line"], mcol=m["col"], mtext=m["text"],
                mocc=m["occ"]) for m in case["matches"]]
     plain = [x for x in sites if objs[x["obj"] - 1]["kind"] == "Plain"]
-    inner = [x for x in ms if x["rule"] == "ID" and x["mocc"] > 1]      # mostly parts of references
+    # second and later parts of qualified references: inner matches of a composite match rule
+    inner = [dict(proc="match", obj=0, rule="ID", mfile=m["file"], mline=m["line"], mcol=m["col"], mtext=m["text"],
+                  mocc=m["occ"]) for m in case["matches"] if m.get("part", 0) >= 1]
     rng.shuffle(sites)
     rng.shuffle(ms)
     rng.shuffle(inner)
@@ -100,7 +102,7 @@ def run(rep):
     rng = random.Random(rep.seed)
     devs = {f["id"]: f["deviation"] for f in common.open_findings(PID)}
     rep.rule = ("S->I: for every rendered model (each TLC-enumerated shape with >= 2 objects, plus seeded-random "
-                "forests of <= 12 objects in 1-3 files) seeded failing sites (object processor of the own or the "
+                "forests of <= 12 objects in 1-3 files and three fixed forests with 2-3 part references) seeded failing sites (object processor of the own or the "
                 "declared rule of an object; an ID or QName match whose text occurs once) x {TextXError without "
                 "location, TextXError with a seeded non-empty subset of line/col/nchar/filename, ValueError} x "
                 "textxerror_wrap on/off x load from string/file (string only for single-file models); the raised "
@@ -113,7 +115,7 @@ def run(rep):
         "object are called; the failing processor raises TextXSemanticError (a TextXError) or ValueError",
         "a match site is an ID, QName or Tag match identified by its text and its occurrence number in processing "
         "order (files in load order, textual order within a file); parts of a qualified reference are ID matches "
-        "located at their own start; every third load takes the grammar from a file",
+        "located at their own start; about half of the failing sites are run with the grammar taken from a file",
         "supplied fields may be falsy values (0, ''): they are values, not 'no location'; an error raised for a plain "
         "value (match-rule alternative of an abstract rule) has no location to be judged",
         "nchar of errors from match-rule processors is not judged (the property speaks of object processors); "
@@ -124,10 +126,10 @@ def run(rep):
     r, shapes = D.emit_shapes(tlc, 3 if quick else 4, max_refs=2)
     rep.add_mc("MC_LoaderProc_Emit[shapes]", r, ["(scenario emission)"])
     shapes = [s for s in shapes if len(s["objs"]) >= 2]
-    nshape, nrand, per_model = (40, 12, 2) if quick else (400, 120, 4)
+    nshape, nrand, per_model = (36, 18, 2) if quick else (400, 120, 4)
     if len(shapes) > nshape:
         shapes = rng.sample(shapes, nshape)
-    scns = list(shapes) + [D.random_scenario(rng, max_objs=rng.randint(5, 12), nfiles=rng.choice([1, 2, 3]),
+    scns = D.qualified_templates() + list(shapes) + [D.random_scenario(rng, max_objs=rng.randint(5, 12), nfiles=rng.choice([1, 2, 3]),
                                              max_postpone=1) for _ in range(nrand)]
     work = tlc.scratch("vt-c33-")
     batch = []
@@ -135,13 +137,13 @@ def run(rep):
         for s in scns:
             nfiles = max(o["file"] for o in s["objs"])
             base = D.render(dict(s, files=["main.m"]), random.Random(rng.randrange(1 << 30)))
-            for site in _sites(base, rng, per_model):
+            for sno, site in enumerate(_sites(base, rng, per_model)):
+                gfile = rng.random() < 0.5      # for about half of the sites the grammar comes from a file
                 for row, from_file in _rows(rng, nfiles == 1):
                     case = dict(base, files=["main.m" if from_file else ""] + base["files"][1:])
                     fault = dict(D.NO_FAULT, on=True, **row)
                     fault.update(site)
                     case["procs"], case["repl"], case["fault"] = list(D.RULES), [], fault
-                    gfile = len(batch) % 3 == 0          # every third load: the grammar comes from a file
                     batch.append((case, fault, _observe(case, work, fault, gfile), gfile))
     finally:
         shutil.rmtree(work, ignore_errors=True)
